@@ -400,6 +400,15 @@ def run_case(case, ctx):
                 val = ls(f, dx, method)
                 want = (np.prod([n * dx for n in shape]) / nd) ** (1 / dim)
                 ctx.check("C17.detection", (not isinstance(val, str)) and abs(val - want) <= 1e-9 * want, {"length": val, "want": want, "droplets": nd, "dx": dx}, dict(t, spacing=dx))
+            # the documented forwarding of options to the droplet locator: refinement, also with worker processes, counts the same droplets
+            from mcx import sched
+
+            sched.install()
+            for kw in ({"refine": True}, {"refine": True, "num_processes": 2}, {"refine": True, "num_processes": 3}, {"minimal_radius": 0.5}):
+                val = ls(f, 1.0, method, **kw)
+                want = (np.prod([float(n) for n in shape]) / nd) ** (1 / dim)
+                ctx.check("C17.detection", (not isinstance(val, str)) and abs(val - want) <= 1e-9 * want, {"length": val, "want": want, "droplets": nd, "options": {k: v for k, v in kw.items()}}, dict(t, options="+".join(sorted(kw))))
+                ctx.count("droplet-counting-with-forwarded-options")
     if np.ptp(f) > 0:
         ctx.count("non-constant-field")
 
@@ -448,4 +457,4 @@ def run_cyl_detect(case, ctx):
 
 def expected_positive(tier):
     return ["C17.stretch", "C17.field-scale", "C17.shift", "C17.peak", "C17.detection", "non-constant-field", "equal-cell-counts-different-spacings", "partly-periodic-boxes",
-            "translated-images-with-droplets", "fields-with->=2-overlapping-sphere-pairs", "grid-sequences", "fields-where-threshold-rules-disagree", "cylindrical-grids-counted"]
+            "translated-images-with-droplets", "fields-with->=2-overlapping-sphere-pairs", "grid-sequences", "fields-where-threshold-rules-disagree", "cylindrical-grids-counted", "droplet-counting-with-forwarded-options"]
